@@ -135,6 +135,30 @@ pub fn run(cx: &mut Ctx) {
         cx.cover("pwlen_mod128", &format!("{}", pwlen % 128));
         case(cx, id, if id { 2 } else { 3 }, 8192 + (pwlen % 3) * 1024, 32, &pw, &salt0, "password_sweep", pwlen % 32 == 0);
     }
+    // (B2) large pass counts at the smallest memory sizes (a pass counter narrower than 32 bits wraps at 2^8 / 2^16)
+    {
+        let ts: &[u64] = match cx.tier {
+            Tier::Tiny => &[255, 257],
+            Tier::Quick => &[7, 64, 255, 256, 257, 258, 300, 511, 512, 513, 1000],
+            Tier::Thorough => &[7, 64, 127, 128, 129, 255, 256, 257, 258, 300, 511, 512, 513, 1000, 4095, 4096, 4097, 65_535, 65_536, 65_537, 70_000],
+        };
+        for &t in ts {
+            for id in [false, true] {
+                for m in [8usize, 13] {
+                    idx += 1;
+                    if !cx.mine(idx) {
+                        continue;
+                    }
+                    let mut rng = cx.rng.fork(idx);
+                    let pw = rng.bytes(9);
+                    let salt = rng.bytes(16);
+                    cx.key(&format!("large t {} {} {}", t, id, m));
+                    cx.cover("large_pass_count", &format!("{}", t));
+                    case(cx, id, t, m * 1024, 32, &pw, &salt, "large_pass_count", false);
+                }
+            }
+        }
+    }
     // (C) pass count x memory grid (memory given in bytes, including values that are not multiples of 1024 / 4 KiB)
     let mems: &[usize] = if cx.tier == Tier::Tiny { &MEMS_KIB[..6] } else { &MEMS_KIB };
     for &m in mems {
